@@ -6,6 +6,8 @@ Specification: spec/mech/Assembly.tla (placement algebra over PanelOps / Connect
 bounded model spec/mc/MC_Assembly.tla, trace specification spec/trace/Trace_Assembly.tla (the verdicts are TLC's)."""
 import contextlib
 import io
+import json
+import os
 import random
 
 import numpy as np
@@ -262,6 +264,7 @@ def observe_place(bd, q):
         size = int(b.get_size())
     except (AttributeError, KeyError) as ex:
         return dict(q=q, raised=type(ex).__name__, msg=str(ex)[:120]), []
+    from compmech.sparse import finalize_symmetric_matrix
     twin, stiffs = build_bay(bd, tile_loads=loads, stiff_loads=True)
     quiet(twin.calc_k0, silent=True)
     n0 = n0_of(bd)
@@ -273,12 +276,13 @@ def observe_place(bd, q):
         comps.append(dense(getattr(p, meth)(size=n0, row0=0, col0=0, silent=True)))
     for i, (s, sd) in enumerate(zip(stiffs, bd["stiffs"])):
         own = own_size(sd)
-        kw = dict(size=n0 + own, row0=n0 if own else 0, col0=n0 if own else 0, silent=True)
+        # as the bay calls it (finalize=False: upper triangle), then mirrored by the package's own finalisation
+        kw = dict(size=n0 + own, row0=n0 if own else 0, col0=n0 if own else 0, silent=True, finalize=False)
         if q != "k0":
             quiet(s.calc_k0, **kw)
         quiet(getattr(s, meth), **kw)
         M = getattr(s, q)
-        A = dense(M) if hasattr(M, "toarray") else np.zeros((n0 + own, n0 + own))
+        A = dense(finalize_symmetric_matrix(M)) if hasattr(M, "toarray") else np.zeros((n0 + own, n0 + own))
         comps.append(A)
         if q in ("k0", "kM"):
             sym = bool(np.array_equal(A, A.T))
@@ -291,6 +295,7 @@ def observe_bay_fext(bd, r):
     try:
         b, stiffs = build_bay(bd)
         quiet(b.calc_k0, silent=True)
+        b.forces_skin = [[flt(v) for v in f] for f in r["skin"]]
         for s, sd, fs in zip(stiffs, bd["stiffs"], r["forces"]):
             if fs["flange"]:
                 s.flange.forces = [[flt(v) for v in f] for f in fs["flange"]]
@@ -388,12 +393,12 @@ def run(tier, seed, build):
             if d["kind"] == "asm":
                 for body in observe_asm(d, r):
                     emit("asm", d, body, "PanelAssembly")
+            elif r["q"] == "fext":
+                emit("bay", d, observe_bay_fext(d, r), "StiffPanelBay.calc_fext")
             elif not d["stiffs"]:
                 emit("bay", d, observe_skin_bay(d, r), "StiffPanelBay (skin tiles)")
             elif r["q"] == "size":
                 emit("bay", d, observe_bay_size(d, r), "StiffPanelBay.get_size")
-            elif r["q"] == "fext":
-                emit("bay", d, observe_bay_fext(d, r), "StiffPanelBay.calc_fext")
             elif r["q"] == "place":
                 for q in ("k0", "kG0", "kM"):
                     body, psd = observe_place(d, q)
@@ -407,6 +412,9 @@ def run(tier, seed, build):
             continue
         rep.nontrivial(common._hashable((d["kind"], repr(d.get("pds", d.get("skin"))), repr(d.get("conns", d.get("cuts"))),
                                          repr([(s["kind"], s["base"], s["flange"]) for s in d.get("stiffs", [])]), r["q"])))
+    if os.environ.get("C13_DUMP"):
+        with open(os.environ["C13_DUMP"], "w") as f:
+            json.dump(events, f)
     cand = OWN + sorted(INHERITED)
     tcfg = ("CONSTANTS\nNFun = 8\nADeviations = {}\nTol = %d\nTolNL = %d\nTolPlace = %d\nTolPsd = %d\nOpenKF = {%s}\n"
             % (TOL, TOL_NL, TOL_PLACE, TOL_PSD, ", ".join('"%s"' % k for k in cand)))
@@ -453,6 +461,6 @@ def run(tier, seed, build):
         % (TOL_PLACE, TOL_PSD),
         "findings owned by other properties (%s) are accepted here only while known_findings.json lists them as open"
         % ", ".join(sorted(INHERITED)),
-        "StiffPanelBay.calc_fext skin forces are C07's clause and are not exercised here; assemblies use the 3-dof CLT models",
+        "assemblies use the 3-dof CLT models",
         "documented call order: calc_k0 before calc_kM / calc_kT / calc_fint (history dependence is C20's subject)"]
     return rep.finish()
